@@ -1134,7 +1134,7 @@ def random_chain(ctx):
     os.makedirs(d, exist_ok=True)
     for f in glob.glob(d + "/*"):
         os.unlink(f)
-    ex = ctx.tlc("RandomMC.tla", "RandomMC_export.cfg" if quick else "RandomMC_export3.cfg", env={"XCV_BEHAV_DIR": d}, workers=1, timeout=1800)
+    ex = ctx.tlc("RandomMC.tla", "RandomMC_export.cfg" if quick else "RandomMC_export4.cfg", env={"XCV_BEHAV_DIR": d}, workers=1, timeout=1800)
     if ex["violated"] or not ex["ok"]:
         raise Broken("RandomMC export: %s" % (ex["violated"] or ex["out"][-800:]))
     hists = [[json.loads(x) for x in open(f) if x.strip()] for f in sorted(glob.glob(d + "/*.ndjson"))]
